@@ -36,6 +36,9 @@ RESPONSE_CONE = [
     "response.AuthnResponse.decrypt_assertions",
     "response.AuthnResponse.parse_assertion",
     "response.AuthnResponse.verify",
+    "response.AssertionIDResponse.loads",
+    "response.AssertionIDResponse.verify",
+    "response.AssertionIDResponse._postamble",
     "entity.Entity._parse_response",
     "client_base.Base.parse_authn_request_response",
 ]
@@ -334,48 +337,48 @@ def r3_reference_names_own_id(run):
     run.check(ok, "R3", key, "guard dominates the verifier call",
               "a path reaches the verifier without the reference/ID guard",
               fi.loc(call), witness=cfg.describe_path(wit) if wit else None)
-    # shape of the guard: single reference, URI equals '#'+id
-    exprs = []
-    for t, _ in guards:
-        exprs.append(t.ast)
-        for sub in ast.walk(t.ast):
-            if isinstance(sub, ast.Name) and sub.id in org.locals:
-                stack = [(sub.id, t.id)]
-                seen = set()
-                while stack:
-                    nm, at = stack.pop()
-                    for d in org.rd.reaching(nm, at):
-                        if id(d) in seen or d.value is None:
-                            continue
-                        seen.add(id(d))
-                        exprs.append(d.value)
-                        for s2 in ast.walk(d.value):
-                            if isinstance(s2, ast.Name) and s2.id in org.locals:
-                                stack.append((s2.id, d.node))
-    has_len = has_uri = False
-    for e in exprs:
-        for c in ast.walk(e):
-            if not isinstance(c, ast.Compare) or len(c.ops) != 1:
-                continue
-            l, r = c.left, c.comparators[0]
-            if isinstance(c.ops[0], ast.Eq):
-                sides = [l, r]
-                if any(isinstance(s, ast.Call) and call_name(s) == "len"
-                       for s in sides) and any(
-                        isinstance(s, ast.Constant) and s.value == 1
-                        for s in sides):
-                    has_len = True
-                txt = [unparse(s) for s in sides]
-                if any(".uri" in x for x in txt) and any(
+    # shape of the guard on the *accepting* side: exactly one Reference, and
+    # its URI equals '#' + item.id
+    from ..dataflow import inline_expr
+    from ..match import dnf
+    for t, rej in guards:
+        acc = [b for b in cfg.succ[t.id] if b not in rej]
+        if not acc:
+            continue
+        pol = cfg.nodes[acc[0]].kind == "true"
+        full = inline_expr(org.rd, t.ast, t.id)
+        alts = dnf(full, pol)
+        has_len = has_uri = True
+        for conj in alts:
+            c_len = c_uri = False
+            for e, p in conj:
+                if not isinstance(e, ast.Compare) or len(e.ops) != 1:
+                    continue
+                eq = (isinstance(e.ops[0], ast.Eq) and p) or \
+                     (isinstance(e.ops[0], ast.NotEq) and not p)
+                if not eq:
+                    continue
+                sides = [e.left, e.comparators[0]]
+                txt = [unparse(x) for x in sides]
+                if any(isinstance(x, ast.Call) and call_name(x) == "len"
+                       for x in sides) and any(
+                        isinstance(x, ast.Constant) and x.value == 1
+                        for x in sides):
+                    c_len = True
+                if any("uri" in x for x in txt) and any(
                         ("item.id" in x and "#" in x) for x in txt):
-                    has_uri = True
-    run.check(has_len, "R3", key + "::single-reference",
-              "guard requires exactly one Reference",
-              "guard does not require len(reference) == 1", fi.loc())
-    run.check(has_uri, "R3", key + "::uri-equals-id",
-              "guard requires Reference URI == '#' + item.id",
-              "guard does not compare the Reference URI with '#' + item.id "
-              "using ==", fi.loc())
+                    c_uri = True
+            has_len = has_len and c_len
+            has_uri = has_uri and c_uri
+        run.check(has_len, "R3", key + "::single-reference",
+                  "acceptance requires exactly one Reference",
+                  "the accepting branch does not require len(reference) == 1: "
+                  "%s" % unparse(full)[:200], fi.loc(t.ast))
+        run.check(has_uri, "R3", key + "::uri-equals-id",
+                  "acceptance requires Reference URI == '#' + item.id",
+                  "the accepting branch does not require the Reference URI to "
+                  "equal '#' + item.id: %s" % unparse(full)[:200],
+                  fi.loc(t.ast))
 
 
 # --------------------------------------------------------------------- R5
